@@ -63,9 +63,9 @@ func check(it *proto.Item, r *proto.Result) []proto.Issue {
 
 var F = &proto.Family{ID: "C05", Gen: gen, Check: check, OutcomeKey: func(r *proto.Result) string { return r.Summary() }, Bound: func(tier string) int {
 	if tier == "thorough" {
-		return 1
+		return 2
 	}
-	return 0
+	return 1
 }}
 
 func init() {
